@@ -51,7 +51,10 @@ for pid in sorted(SPACE):
               "C19": ("7341075", "28532556", "no (the 6000 s deadline ended the last scenario; what was covered is listed per level)", "6010")}[pid]
         trows.append("| %s | %s | %s | %s | %s s (exit 0; run of the last day before waves 8-9, not repeated after them) |" % ((pid,) + n_))
 trows += ["", "The thorough tiers of C02, C07 and C12 were likewise last run to completion before waves 8-9 (a C12 re-run was stopped to give the",
-          "machine to the final re-detection); every other row is a run of the checks as committed (exit 0, no VIOLATION, no KNOWN-FINDING beyond the listed ones)."]
+          "machine to the final re-detection); every other row is a run of the checks as committed (exit 0, no VIOLATION, no KNOWN-FINDING beyond the listed ones).",
+          "The clauses added to the Engine-A checks after their last complete thorough run were exercised at thorough depth on their own, without",
+          "alarm: the bulk removals with up to 8 members (7808 cases each for C01 and C02), the odd-position scenarios S18 at depth 3 (22 k / 4 k states),",
+          "C14's must-be-refused clauses on S1-S3 at depth 3 (180 k states, 3.9 M calls) and C10's late reads on four naming scopes at depth 3 (576 k states)."]
 thorough_table = "\n".join(trows) + "\n"
 seeded = []
 for f in sorted(glob.glob(os.path.join(V, "seeded", "*", "meta.json"))):
